@@ -96,9 +96,16 @@ def redfield_rate_matrix(cx, N, w=None, angles=None):
             cx.note("golden rule structure: K[a,b] = sum_n (S_na S_nb)^2 * Ct_n(w_ba) with Ct_n uninterpreted")
     else:
         sbi.CC.get_correlation_function(0, 0).temperature = T
+    KK0 = numpy.array(sbi.KK).copy()
     RR = RedfieldRateMatrix(ham, sbi)
     K = RR.data
     cx.check_div_obligations("finite")
+    # the system-bath operators handed in are not modified, so a second calculation gives the same rates
+    cx.prove_eq("bath_operators_unchanged", sbi.KK, KK0)
+    if N == 3:
+        K2 = RedfieldRateMatrix(ham, sbi).data
+        cx.check_div_obligations("finite")
+        cx.prove_eq("second_calculation_same_rates", K2, K, tol=1e-9)
     cx.prove_eq("column_sums", numpy.sum(K, axis=0), numpy.zeros(N, dtype=int), tol=1e-9)
     for a in range(N):
         for b in range(N):
